@@ -3,7 +3,7 @@ from __future__ import annotations
 
 import asyncio
 
-from ..lib import NMEA2000Decoder
+from ..lib import PhysicalQuantities, NMEA2000Decoder
 from .. import refdb, gen, wire, hist, project, simgw
 
 ID = "C12"
@@ -245,6 +245,16 @@ def run_shard(spec, acc):
         elif rep % 3 == 2:
             d = rng.choice(pool.singles + pool.fasts)
             settings = {"include_pgns": [d.pgn, rng.choice(pool.singles).id, 60928]}
+        # "a decoder with the same settings": the other decoder settings a client passes through
+        if rep % 5 == 1:
+            settings["preferred_units"] = {PhysicalQuantities.TEMPERATURE: "C", PhysicalQuantities.PRESSURE: "bar", PhysicalQuantities.ANGLE: "deg", PhysicalQuantities.SPEED: "kts"}
+        elif rep % 5 == 2:
+            settings["build_network_map"] = True
+        elif rep % 5 == 3:
+            settings[rng.choice(["exclude_manufacturer_code", "include_manufacturer_code"])] = [rng.choice(["Raymarine", "raymarine", "Garmin"])]
+        elif rep % 5 == 4:
+            settings.update({"build_network_map": True, "preferred_units": {PhysicalQuantities.ANGLE: "deg"}, "exclude_manufacturer_code": ["Furuno"]})
+        acc.cover("client_settings", "+".join(sorted(settings)) or "none")
         stream = b"".join(packets)
         want, undel = expected_messages(kind, packets, settings)
         bset = set(_boundaries(packets))
